@@ -133,10 +133,29 @@ impl<'t, 'd> G<'t, 'd> {
 
     /// inline blanks only
     fn blanks(&mut self) {
-        match self.t.weighted(&[12, 2, 1]) {
+        match self.t.weighted(&[36, 6, 3, 2]) {
             0 => self.p(" "),
             1 => self.p("  "),
-            _ => self.p("\t"),
+            2 => self.p("\t"),
+            _ => {
+                // in code and math every Unicode White_Space character is a blank for Typst's lexer (in markup
+                // only space and tab are: there these become text, which is a legitimate input as well).
+                // The whole class, so that a classification by bytes or by a hand-written list shows
+                // (seeded change C09-5: 0x85 is NEL, but also the last byte of U+2005).
+                const U: &[&str] = &[
+                    "\u{a0}", "\u{1680}", "\u{2000}", "\u{2001}", "\u{2002}", "\u{2003}", "\u{2004}", "\u{2005}", "\u{2006}",
+                    "\u{2007}", "\u{2008}", "\u{2009}", "\u{200a}", "\u{202f}", "\u{205f}", "\u{3000}",
+                ];
+                if self.cont > 0 || self.in_math > 0 {
+                    let s = self.t.pick(U);
+                    self.p(s);
+                    if self.t.coin() {
+                        self.p(" ");
+                    }
+                } else {
+                    self.p(" ");
+                }
+            }
         }
     }
 
